@@ -84,7 +84,9 @@ class MinGenSet():
             Dictionary with the solver options. Default is `{}`. See [solver options documentation](solver-options-optimizations.md).
         """
         
-        self.numbers = list(numbers) # Make a copy of the list
+        # (numpy scalars are read as Python numbers: `total - value` below is otherwise computed in the fixed-width type of the value)
+        total = total.item() if hasattr(total, "item") else total
+        self.numbers = [number.item() if hasattr(number, "item") else number for number in numbers] # Make a copy of the list
         utils.logger.debug(f"{__name__}: Initial numbers: {self.numbers}")
         self.initial_numbers = numbers
         self.total = total
@@ -116,7 +118,7 @@ class MinGenSet():
                 utils.logger.error(f"{__name__}: partition_constraints must be a list of lists.")
                 raise ValueError("partition_constraints must be a list of lists.")        
             # Float parts that sum up to the total as decimal numbers (0.1 + 0.2 + 0.3 = 0.6) differ in the last binary digits
-            if not all(math.isclose(sum(constraint), self.total, rel_tol=1e-9, abs_tol=1e-9) for constraint in self.partition_constraints):
+            if not all(math.isclose(sum(part.item() if hasattr(part, "item") else part for part in constraint), self.total, rel_tol=1e-9, abs_tol=1e-9) for constraint in self.partition_constraints):
                 utils.logger.error(f"{__name__}: The sum of the numbers inside each subset constraint must equal the total value.")
                 raise ValueError("The sum of the numbers inside each subset constraint must equal the total value.")
 
